@@ -103,3 +103,17 @@ func exists(lo, hi int, f func(int) bool) bool {
 //@   ensures forall(0, len(to), func(t int) bool { return forall(0, len(from), func(j int) bool {
 //@           return to[t].Overlaps(from[j]) ==> exists(0, len(result[t]), func(k int) bool { return result[t][k] == j }) }) })
 //@   ensures forall(0, len(to), func(t int) bool { return forall(0, len(result[t]), func(k int) bool { return forall(0, k, func(m int) bool { return result[t][m] < result[t][k] }) }) })
+//@   loop 0:
+//@     invariant len(assignments) == len(to)
+//@     invariant forall(0, idx_, func(t int) bool { return forall(0, len(assignments[t]), func(k int) bool {
+//@           return 0 <= assignments[t][k] && assignments[t][k] < len(from) && to[t].Overlaps(from[assignments[t][k]]) }) })
+//@     invariant forall(0, idx_, func(t int) bool { return forall(0, len(from), func(j int) bool {
+//@           return to[t].Overlaps(from[j]) ==> exists(0, len(assignments[t]), func(k int) bool { return assignments[t][k] == j }) }) })
+//@     invariant forall(0, idx_, func(t int) bool { return forall(0, len(assignments[t]), func(k int) bool { return forall(0, k, func(m int) bool { return assignments[t][m] < assignments[t][k] }) }) })
+//@     invariant forall(idx_, len(to), func(t int) bool { return len(assignments[t]) == 0 })
+//@   loop 1:
+//@     invariant len(assignments) == len(to) && 0 <= toIdx && toIdx < len(to) && same(toRange, to[toIdx])
+//@     invariant forall(0, len(to), func(t int) bool { return t != toIdx ==> same(assignments[t], atentry(assignments)[t]) })
+//@     invariant forall(0, len(assignments[toIdx]), func(k int) bool { return 0 <= assignments[toIdx][k] && assignments[toIdx][k] < idx_ && to[toIdx].Overlaps(from[assignments[toIdx][k]]) })
+//@     invariant forall(0, idx_, func(j int) bool { return to[toIdx].Overlaps(from[j]) ==> exists(0, len(assignments[toIdx]), func(k int) bool { return assignments[toIdx][k] == j }) })
+//@     invariant forall(0, len(assignments[toIdx]), func(k int) bool { return forall(0, k, func(m int) bool { return assignments[toIdx][m] < assignments[toIdx][k] }) })
